@@ -254,7 +254,9 @@ impl Parser {
             // This way, the expression: [NOT a AND b OR c], will be parsed as: (OR (AND (NOT a) b) c)
             Token::Not => {
                 self.next_token();
-                let expr = self.parse_expr_bp(3)?; // NOT precedence
+                // NOT binds tighter than AND/OR (their left powers are 3 and 1) but looser than
+                // comparisons (5): `NOT a = b AND c` is `(NOT (a = b)) AND c`.
+                let expr = self.parse_expr_bp(5)?; // NOT precedence
                 Ok(Expr::UnaryOp {
                     op: UnaryOperator::Not,
                     expr: Box::new(expr),
